@@ -147,12 +147,16 @@ impl crate::simnet::exec::Actor for ServerHistory {
             let h = self.peer.hooks_run[self.seen_hooks];
             self.seen_hooks += 1;
             if h >= 1000 {
-                self.cmds.borrow_mut().push_back(h - 1000);
+                let n = h - 1000;
+                self.cmds.borrow_mut().push_back(if n >= 500 { BIGN[n - 500] } else { n });
                 self.cmd_sig.raise();
             }
         }
     }
 }
+
+/// "no limit" ways of calling shutdown(n): the identifier computation saturates
+const BIGN: [usize; 5] = [1 << 30, 1 << 60, (1 << 60) + 1, usize::MAX / 2, usize::MAX];
 
 fn ops_json(ops: &[SOp]) -> Value {
     json!(ops.iter().map(|o| format!("{o:?}")).collect::<Vec<_>>())
@@ -191,7 +195,7 @@ pub fn run_server(ops: &[SOp], style: Style, sched: &[u16], credit: u64, ctx: &m
                 late.push(next_stream);
                 next_stream += 1;
             }
-            SOp::Shutdown(n) => pops.push(PeerOp::Hook(1000 + n)),
+            SOp::Shutdown(n) => pops.push(PeerOp::Hook(1000 + BIGN.iter().position(|b| b == n).map(|i| 500 + i).unwrap_or(*n))),
             SOp::Complete => {
                 // completes the k-th ACCEPTED request (if there is one by then); signals are indexed by accept order
                 pops.push(PeerOp::Signal(completed));
@@ -453,7 +457,7 @@ fn gen_server_ops(t: &mut Tape, maxlen: usize, uniform: bool) -> Vec<SOp> {
     let n = t.pick(maxlen + 1);
     (0..n)
         .map(|_| {
-            let k = if uniform { t.pick(8) } else { t.weighted(&[4, 1, 1, 1, 1, 1, 2, 2]) };
+            let k = if uniform { t.pick(9) } else { t.weighted(&[4, 1, 1, 1, 1, 1, 2, 2, 1]) };
             match k {
                 0 => SOp::Arrive,
                 1 => SOp::ArriveLate,
@@ -462,6 +466,7 @@ fn gen_server_ops(t: &mut Tape, maxlen: usize, uniform: bool) -> Vec<SOp> {
                 4 => SOp::Shutdown(2),
                 5 => SOp::Shutdown(3),
                 6 => SOp::Complete,
+                8 => SOp::Shutdown(if uniform { usize::MAX } else { *t.choose(&BIGN) }),
                 _ => SOp::Settle,
             }
         })
